@@ -338,6 +338,14 @@ inline std::string escape_string_literal(const std::string_view str)
         case '\r':
             res += "\\r";
             break;
+        case '\'':
+            // the same helper is used for character literals
+            res += "\\'";
+            break;
+        case '?':
+            // "??/" and friends are trigraphs before C++17
+            res += "\\?";
+            break;
         default:
             res += c;
         }
@@ -356,7 +364,7 @@ inline std::string make_string_constant(
     }
 
     std::string value;
-    value.append("\"").append(const_value);
+    value.append("\"").append(escape_string_literal(const_value));
     // add padding if necessary
     const auto padding_length = type_length - const_value.size();
     for(std::size_t i = 0; i != padding_length; i++)
@@ -381,7 +389,7 @@ inline std::string make_char_constant(
             constant_value, type_length, location);
     }
 
-    return fmt::format("'{}'", constant_value);
+    return fmt::format("'{}'", escape_string_literal(constant_value));
 }
 
 inline std::string numeric_literal_to_value(
